@@ -582,3 +582,44 @@ def t2_no_narrowing(ctx):
             if fty in _INT_BITS and (fname in names or fname.endswith(("_bytes", "_keys", "len", "pos", "fileid"))):
                 r.add(ty.split("::")[-1], "field `%s` is 64 bits wide" % fname, _INT_BITS[fty] >= 64, "src/storage", "%s" % fty if _INT_BITS[fty] >= 64 else "%s: narrower than the u64 lengths and offsets it accumulates or holds" % fty)
     return r
+
+
+# ---------------------------------------------------------------------------------------------
+# P16e: a merge that fails after it re-pointed keys still leaves the active file above its outputs
+
+
+def p16e_failed_merge_rotates(ctx):
+    import k2m
+    from k2 import edge_set
+
+    r = RuleResult(
+        "P16e",
+        "a merge that gives up after it has re-pointed index entries to an output file does not return — with Ok or with Err — while the active file still has an id BELOW that output: later acknowledged writes would go to the lower id, recovery replays files in ascending id order, so the output's (older) copy of an overwritten key is replayed after the overwrite and wins. Checked as: from every assignment that re-points an entry's fileid in Writer::merge, no `return` is reachable without passing a successful Writer::new_active_datafile (P16 demands this of the Ok returns only)",
+        floor=1,
+    )
+    m = k2m._model(ctx)
+    b = m.b
+    f = fam_name(b)
+    if len(m.rotates) != 1:
+        r.unrec(f, "new_active_datafile ×%d" % len(m.rotates), short_span(b.span), "expected one rotation")
+        return r
+    rbb, rt = m.rotates[0]
+    oe, ee, _ = try_edges(b, rbb)
+    rok = edge_set(oe)
+    sites = sorted({bb for bb, fld, o, st in m.kd_writes if fld == "fileid"})
+    if not sites:
+        r.unrec(f, "re-point of an entry's fileid", short_span(b.span), "not found")
+        return r
+    for sbb in sites:
+        classes = {}
+        for c, d, rb in ret_classes(b, sbb, lambda e: e.kind == "unwind" or (e.src, e.dst) in rok):
+            if c == "pass" and d == (rbb, "T"):
+                continue
+            classes.setdefault(c, rb)
+        bad = {c: rb for c, rb in classes.items() if c != "unwind"}
+        pth = None
+        if bad:
+            goal = set(bad.values())
+            pth = path_to(b, [sbb], lambda x: x in goal, blocked_edges=lambda e: e.kind == "unwind" or (e.src, e.dst) in rok)
+        r.add(f, "every return after a re-point rotated the active file above the outputs", not bad, where(b, sbb), "" if not bad else "a return of kind %s is reachable after the re-point without new_active_datafile: the writer keeps appending to an id below the merge output (an acknowledged overwrite made after the failed merge reverts on reopen)" % sorted(bad), describe_path(b, pth) if pth else None)
+    return r
